@@ -4,6 +4,7 @@
 usage:
   mutcheck.py patch <file.diff> [C01 C07 ...]        apply a patch to the scratch copy
   mutcheck.py revert <commit> [C01 ...]              reverse-apply a /repo commit (re-introduces a repaired defect)
+  mutcheck.py subst <relpath> <old> <new> [C01 ...]   replace the first occurrence of a text in one file
   mutcheck.py seeded [name ...]                      every /verif/seeded/<name>/patch.diff against all claimed properties
   mutcheck.py fixed                                  every `fixed` entry of known_findings.jsonl: revert its commit, its property's check must fire
 The scratch copy lives under $TMPDIR (default /tmp) and is removed afterwards."""
@@ -45,6 +46,14 @@ def with_change(kind, arg, props):
             rc, o = sh(f"git apply --3way {os.path.abspath(arg)}", cwd=d)
             if rc != 0:
                 rc, o = sh(f"patch -p1 < {os.path.abspath(arg)}", cwd=d)
+        elif kind == "subst":
+            rel, old, new = arg
+            path = os.path.join(d, rel)
+            src = open(path).read()
+            if src.count(old) < 1:
+                return {"apply_failed": f"text not found in {rel}: {old!r}"}
+            open(path, "w").write(src.replace(old, new, 1))
+            rc, o = 0, ""
         else:
             rc, diff = sh(f"git -C /repo show {arg} -- uxarray")
             rc, o = sh("git apply -R --3way -", cwd=d, inp=diff)
@@ -76,6 +85,11 @@ def main():
     if mode in ("patch", "revert"):
         props = sys.argv[3:] or claimed()
         print(fmt(with_change(mode, sys.argv[2], props)))
+        return 0
+    if mode == "subst":
+        rel, old, new = sys.argv[2:5]
+        props = sys.argv[5:] or claimed()
+        print(fmt(with_change("subst", (rel, old.encode().decode("unicode_escape"), new.encode().decode("unicode_escape")), props)))
         return 0
     if mode == "seeded":
         names = sys.argv[2:] or sorted(os.listdir(os.path.join(VERIF, "seeded")))
